@@ -453,6 +453,7 @@ def run(ctx):
         res.sample({"family": tag, "structure": c["structure"].get("name", "synthetic:%d residues" % len(c["structure"].get("residues", []))),
                     "pairs": c["pairs"][:6], "find_gaps": c["find_gaps"],
                     "dot_bracket": o["dot_bracket"][1][:160] if o["dot_bracket"][0] == "ok" else o["dot_bracket"]})
+    __import__("corr.fn_common", fromlist=["run_fn"]).run_fn(ctx, res, "C06")  # regenerated functions vs the real ones (tools/py2lean.py)
     return res
 
 
